@@ -197,6 +197,8 @@ type nhConfig struct {
 	// LiveCron leaves the registered cron jobs in place: they fire when the virtual clock is advanced tick by tick
 	// (the wiring scenario); otherwise the harness takes them out and runs them as explicit events.
 	LiveCron bool `json:"live_cron,omitempty"`
+	// MuleInner: the algorithm wrapped by the sensor-mule algorithm (default epidemic)
+	MuleInner string `json:"mule_inner,omitempty"`
 }
 
 type nhNode struct {
@@ -231,6 +233,9 @@ func nhRoutingConf(cfg nhConfig) routing.RoutingConf {
 	if cfg.Algo == "sensor-mule" {
 		inner := rc
 		inner.Algorithm = "epidemic"
+		if cfg.MuleInner != "" {
+			inner.Algorithm = cfg.MuleInner
+		}
 		rc.SensorMuleConf = routing.SensorNetworkMuleConfig{Algorithm: &inner, SensorNodeRegex: "^dtn://sensor.*$"}
 	}
 	return rc
